@@ -22,8 +22,8 @@
    Vectors are indexes into VecTable, integer vectors of equal norm: cosine order = order of integer dot
    products, cosine(q, v) = Dot(q, v) / NormSq exactly.
 
-   Two deviations of the code at the pinned commit from what C33 requires are named and switchable
-   (TRUE = model what /repo does, FALSE = model the repaired behaviour):
+   Three deviations of the code at the pinned commit from what C33 requires are named and switchable
+   (TRUE / 100 = model what /repo does, FALSE / 0 = model the repaired behaviour):
      FConsolidateTombstones  Consolidate (first step of Optimize when the buffer is open) migrates every
                              TempVectors entry that has a Content record - also the deleted ones (nil vector,
                              Deleted = true) - through the upsert path, which writes Deleted = false: the deleted
@@ -31,7 +31,10 @@
                              centroid exists yet, the nil vector becomes centroid 1 and the distance computation
                              for the next real vector panics (index out of range).
      FBufferBlind            while the buffer is open Get and Query read TempVectors only: everything Consolidate
-                             moved into the index is unreachable (Get: "item vector not found in TempVectors").  *)
+                             moved into the index is unreachable (Get: "item vector not found in TempVectors").
+     ConsolidateBatch = 100  (0 = no limit) Consolidate migrates at most 100 entries and Optimize calls it once; phase 4
+                             then drops the TempVectors tree with the rest in it: those items keep a live Content
+                             record that addresses nothing (Get: "item has invalid centroid ID (0)").  *)
 EXTENDS Integers, Sequences, FiniteSets, TLC, Json
 
 CONSTANTS NI, NV, NP,               \* ids 1..NI, vectors 1..NV (prefix of VecTable), payload tags 1..NP
@@ -39,7 +42,7 @@ CONSTANTS NI, NV, NP,               \* ids 1..NI, vectors 1..NV (prefix of VecTa
           Ks,                       \* k values of Query explored by the exhaustive model
           MaxOps, MaxVer,           \* bounds of the exhaustive model: mutating calls per program, optimizations
           MaxBatch, BatchVecs,      \*   and the batches tried: length, vectors (payload tag 1)
-          FConsolidateTombstones, FBufferBlind
+          FConsolidateTombstones, FBufferBlind, ConsolidateBatch
 
 VARIABLES content, tmp, idx, ver, buf, want,
           broken,   \* a call panicked: the client stops
@@ -147,9 +150,13 @@ Delete(id, ok) ==
    Vectors tree, reap tombstones); phase 4 (switch ActiveVersion, drop TempVectors and the old trees). *)
 
 \* TempVectors entries Consolidate pushes through the indexed upsert path
-Migrated == IF Stage # "tmp" THEN {}
-            ELSE {i \in DOMAIN tmp : /\ content[i].st # "none"
-                                     /\ (FConsolidateTombstones \/ (content[i].st = "live" /\ tmp[i] # NilV))}
+Migratable == IF Stage # "tmp" THEN {}
+              ELSE {i \in DOMAIN tmp : /\ content[i].st # "none"
+                                       /\ (FConsolidateTombstones \/ (content[i].st = "live" /\ tmp[i] # NilV))}
+\* Consolidate scans TempVectors in key order and stops when it has collected ConsolidateBatch items; Optimize calls
+\* it once.  (Keys are compared as strings; the driver names ids so that this is the numeric order.)
+Migrated == IF ConsolidateBatch = 0 THEN Migratable
+            ELSE {i \in Migratable : Cardinality({j \in Migratable : j < i}) < ConsolidateBatch}
 
 Consolidated ==
   LET m  == Migrated
